@@ -222,6 +222,7 @@ scpi_bool_t SCPI_Parse(scpi_t * context, char * data, int len) {
             SCPI_ErrorPush(context, SCPI_ERROR_INVALID_CHARACTER);
             result = FALSE;
         } else if (state->numberOfParameters < 0) {
+            SCPI_VERIF_EV(context, SCPI_VE_UNIT_INVALID, data, r, 1);
             /* the parameter list is not valid program data (it ends with a separator or in an
              * incomplete block) - do not run the command without its parameters */
             SCPI_ErrorPush(context, SCPI_ERROR_INVALID_SEPARATOR);
